@@ -16,7 +16,7 @@ Definition pinned_scoped_in : sx :=
 Definition g_scope : scope := mkscope [1] [1] [1] [] [] [1] [] [] [].
 (* the node `return g()`: reads g (2); nothing live after it; g reaches it *)
 Definition ret_env : env name :=
-  mkenv name (mkscope [2] [] [] [] [] [] [] [] []) empty_scope (fun _ => false) (fun _ => false) [(false, g_scope)] true.
+  mkenv name (mkscope [2] [] [] [] [] [] [] [] []) empty_scope (fun _ => false) (fun _ => false) [] (fun _ => false) [(false, g_scope)] true.
 
 Theorem liveness_nonlocal_closure_refuted :
   exists (e : env name) (x : name) (s : scope),
